@@ -30,29 +30,36 @@ ShardPairs(d) == LET ps == PairSeq(d) IN {ps[j] : j \in {x \in 1..Len(ps) : x % 
 
 Contains(s, t) == \E i \in 1..(Len(s) - Len(t) + 1) : SubSeq(s, i, i + Len(t) - 1) = t
 HOk(b) == HarnessFilter = "all" \/ Contains(HarnessFilter, b.h)
-Bids == (IF Contains(Family, "dedicated") THEN SndDedicatedBids ELSE {})
-        \cup (IF Contains(Family, "singles") THEN {b \in SndSingleBids : HOk(b)} ELSE {})
-        \cup (IF Contains(Family, "pairs") THEN {b \in SndPairBids(ShardPairs(0)) : HOk(b)} ELSE {})
+OnlyBase == Env("ONLY", "")                    \* development aid: restrict the universe to the base with this name
+AllBids == (IF Contains(Family, "dedicated") THEN SndDedicatedBids ELSE {})
+           \cup (IF Contains(Family, "singles") THEN {b \in SndSingleBids : HOk(b)} ELSE {})
+           \cup (IF Contains(Family, "pairs") THEN {b \in SndPairBids(ShardPairs(0)) : HOk(b)} ELSE {})
+Bids == IF OnlyBase = "" THEN AllBids ELSE {b \in AllBids : b.o = OnlyBase}
 
 Sites(b) == 1..SndSize(SndTree(b))
 
 ASSUME Mode = "emit" => PrintT(<<"PRELUDE", ToJson(SndCommon)>>)
-ASSUME Mode = "emit" => PrintT(<<"MENU", ToJson([kinds |-> SndKinds, bases |-> Cardinality(Bids), prelude_nodes |-> SndPreludeSize])>>)
+ASSUME Mode = "emit" => PrintT(<<"MENU", ToJson([kinds |-> SndKinds, bases |-> Cardinality(Bids), prelude_nodes |-> SndPreludeSize,
+                                                 \* sizes of the index-addressed families (the check requires the dense base to show every combination)
+                                                 p28 |-> SndRTCount, p29local |-> SndLTCount(SndLTLocalScopes), p29global |-> SndLateGlobalCount])>>)
 
 Init == /\ pc = "start" /\ PInit
         /\ IF Mode = "emit"
            THEN \E b \in Bids : \E s \in Sites(b) : bid = b /\ site = s
            ELSE bid = "-" /\ site = 0
 
+\* (values are bound through singleton sets: a LET definition is evaluated again at every reference, which made a site
+\* with N alternatives cost N * N constructions)
 Emit == /\ Mode = "emit" /\ pc = "start" /\ pc' = "done"
-        /\ LET root == SndTree(bid)
-               alts == SndAlts(SndAt(root, site), SndCtx(root, site), SndIsDense(bid))
-               pre == ~SndIsWhole(bid) IN
-           \A a \in 1..Len(alts) :
-              /\ Assert(alts[a].kd \in {SndKinds[j] : j \in 1..Len(SndKinds)}, "alternative of an unknown kind")
-              /\ PrintT(<<"REPLAY", ToJson([id |-> [b |-> bid, s |-> site, a |-> a], kd |-> alts[a].kd, v |-> alts[a].v,
+        /\ \E root \in {SndTree(bid)} : \E n \in {SndAt(root, site)} : \E ctx \in {SndCtx(root, site)} :
+           \E eager \in {SndAlts(n, ctx, SndIsDense(bid))} :
+           LET pre == ~SndIsWhole(bid) IN
+           \A a \in 1..(Len(eager) + SndIndexedCount(n, ctx, SndIsDense(bid))) :
+              \E alt \in {SndAltOf(eager, n, ctx, SndIsDense(bid), a)} :
+              /\ Assert(alt.kd \in {SndKinds[j] : j \in 1..Len(SndKinds)}, "alternative of an unknown kind")
+              /\ PrintT(<<"REPLAY", ToJson([id |-> [b |-> bid, s |-> site, a |-> a], kd |-> alt.kd, v |-> alt.v,
                                             pre |-> pre,
-                                            tops |-> LET t == SndPut(root, site, alts[a].n) IN IF pre THEN t.ss ELSE SndProgram(bid, t)])>>)
+                                            tops |-> LET t == SndPut(root, site, alt.n) IN IF pre THEN t.ss ELSE SndProgram(bid, t)])>>)
         /\ UNCHANGED <<bid, site, ph, written, term>>
 
 ---------------------------------------------------------------------------
